@@ -343,16 +343,16 @@ func TestLoopRaw(t *testing.T) {
 
 		excluded := 0
 
+		if kf.Listed(kfFirstLineEOF) && (len(input) > 0 && !gluonTagStart(input[0])) {
+			input = append([]byte("lead NOOP\r\n"), input...)
+			excluded++
+		}
+
 		if kf.Listed(kfQuotedEOF) {
 			var changed bool
 			if input, changed = steerQuotedEOF(input); changed {
 				excluded++
 			}
-		}
-
-		if kf.Listed(kfFirstLineEOF) && (len(input) > 0 && !gluonTagStart(input[0])) {
-			input = append([]byte("lead NOOP\r\n"), input...)
-			excluded++
 		}
 
 		sizes := chunkSizes(t)
